@@ -2,6 +2,7 @@ package main
 
 import (
 	"fmt"
+	"strings"
 
 	"golang.org/x/tools/go/ssa"
 )
@@ -125,4 +126,228 @@ func hashCommitShape(P *Program, R *Report, rule string) {
 		}
 		phiEnv = map[*ssa.Phi]ssa.Value{}
 	}
+}
+
+func init() {
+	register("C15",
+		Rule{ID: "C15.a", Explain: "HashCommit: exactly one encoder (encoding/asn1.Marshal) over a slice built here whose elements are [true iff issig], the element count len(values), then values[i].Go() for every i in order; one SHA-256 over exactly the marshal result; the returned integer is SetBytes of the whole digest (path-split evaluation for issig = true/false).",
+			Run: func(P *Program, R *Report) { hashCommitShape(P, R, "C15.a") }},
+		Rule{ID: "C15.b", Explain: "GetHashNumber: the hashed list is [a if non-nil, b if non-nil, index, counter]; limbs are HashCommit(list, false) shifted left by k and added; k starts at 0, the loop runs while k < bitlen and advances k by 256 and the counter by 1 per limb.",
+			Run: func(P *Program, R *Report) { getHashNumberRule(P, R) }},
+		Rule{ID: "C15.c", Explain: "IntHashSha256 is SetBytes of the whole SHA-256 digest of exactly the input.",
+			Run: func(P *Program, R *Report) {
+				fn := mustFunc(P, R, "C15.c", "common.IntHashSha256")
+				if fn == nil {
+					return
+				}
+				var write, sum, set *ssa.Call
+				for _, c := range callsIn(fn) {
+					cc, _ := c.(*ssa.Call)
+					if cc == nil {
+						continue
+					}
+					switch {
+					case cc.Call.IsInvoke() && cc.Call.Method.Name() == "Write":
+						write = cc
+					case cc.Call.IsInvoke() && cc.Call.Method.Name() == "Sum":
+						sum = cc
+					case bigMethod(cc) == "SetBytes":
+						set = cc
+					}
+				}
+				ok := write != nil && sum != nil && set != nil && desc(write.Call.Args[0]) == "arg#0" && desc(write.Call.Value) == "call:crypto/sha256.New()" &&
+					desc(sum.Call.Value) == "call:crypto/sha256.New()" && isNilConst(sum.Call.Args[0]) && set.Call.Args[1] == ssa.Value(sum)
+				R.decide("C15.c", "common.IntHashSha256:shape", "SetBytes(sha256.New().Write(input).Sum(nil))", ok, "", P.Pos(fn.Pos()))
+				okRet := set != nil
+				for _, r := range returnsOf(fn) {
+					if set == nil || siteOf(r.Results[0]) != siteOf(set) {
+						okRet = false
+					}
+				}
+				R.decide("C15.c", "common.IntHashSha256:result", "that integer is returned", okRet, "", P.Pos(fn.Pos()))
+			}},
+		Rule{ID: "C15.d", Explain: "createChallenge sandwiches the contributions between context and nonce in order (C02.a) and nothing on a challenge-feeding path accumulates in map order (C02.g).",
+			Run: func(P *Program, R *Report) {
+				sub := newReport(R.Prop, R.Tier, P)
+				for _, r := range registry["C02"] {
+					if r.ID == "C02.a" || r.ID == "C02.g" {
+						r.Run(P, sub)
+					}
+				}
+				for _, o := range sub.Obls {
+					o.Rule = "C15.d"
+					R.add(o)
+				}
+				for f := range sub.funcsSeen {
+					R.seen(f)
+				}
+			}},
+		Rule{ID: "C15.e", Explain: "the signature-session marker: only createChallenge passes a variable flag to HashCommit; key proofs, ProofS, the revocation self-check and GetHashNumber pass the constant false (table of call sites).",
+			Run: func(P *Program, R *Report) {
+				hc := mustFunc(P, R, "C15.e", "common.HashCommit")
+				if hc == nil {
+					return
+				}
+				n := 0
+				for _, fn := range P.AllFuncs {
+					for _, c := range callsIn(fn) {
+						if staticCallee(c) != hc {
+							continue
+						}
+						n++
+						k := FuncKey(fn)
+						d := desc(c.Common().Args[1])
+						want := "false"
+						if k == "gabi.createChallenge" {
+							want = "arg#3"
+						}
+						R.decide("C15.e", k+":issig", "HashCommit is called with issig = "+want+" here", d == want, "got "+d, P.Pos(c.Pos()))
+					}
+				}
+				R.decide("C15.e", "common.HashCommit:callsites", "at least 7 call sites of HashCommit", n >= 7, fmt.Sprintf("%d", n), "")
+			}},
+	)
+}
+
+func getHashNumberRule(P *Program, R *Report) {
+	rule := "C15.b"
+	const key = "common.GetHashNumber"
+	fn := mustFunc(P, R, rule, key)
+	if fn == nil {
+		return
+	}
+	var hc *ssa.Call
+	for _, c := range callsIn(fn) {
+		if isCallTo(c, "common.HashCommit") {
+			hc = c.(*ssa.Call)
+		}
+	}
+	if hc == nil {
+		R.bad(rule, key+":limb", "limbs are computed by HashCommit", "no call", P.Pos(fn.Pos()))
+		return
+	}
+	R.decide(rule, key+":issig", "limbs are hashed without the signature-session marker", desc(hc.Call.Args[1]) == "false", "", P.Pos(hc.Pos()))
+	// the list: optional a, optional b, index, counter(0)
+	// evaluate the append chain with the two optional elements
+	listOK := false
+	var notes []string
+	{
+		// walk the chain backwards from the hashed slice
+		v := hc.Call.Args[0]
+		var tail []string
+		for i := 0; i < 10; i++ {
+			switch x := v.(type) {
+			case *ssa.Call:
+				if isCallTo(x, "builtin:append") {
+					t, ok := seqTail(x.Call.Args[1], 0, map[ssa.Value]bool{})
+					if ok && len(t) == 1 {
+						cond := ""
+						for _, a := range controllingConds(x.Block()) {
+							a = normAtom(a)
+							cond = fmt.Sprintf(" if %s is %s", desc(a.V), a.Want)
+							break
+						}
+						tail = append([]string{t[0].D + cond}, tail...)
+					}
+					v = x.Call.Args[0]
+					continue
+				}
+			case *ssa.Phi:
+				// optional append: phi(prev, append(prev, x))
+				var next ssa.Value
+				for _, e := range x.Edges {
+					if c, ok := e.(*ssa.Call); ok && isCallTo(c, "builtin:append") {
+						t, ok := seqTail(c.Call.Args[1], 0, map[ssa.Value]bool{})
+						cond := ""
+						for _, a := range controllingConds(c.Block()) {
+							a = normAtom(a)
+							cond = fmt.Sprintf(" if %s is %s", desc(a.V), a.Want)
+							break
+						}
+						if ok && len(t) == 1 {
+							tail = append([]string{"?" + t[0].D + cond}, tail...)
+						}
+						next = c.Call.Args[0]
+					}
+				}
+				if next != nil {
+					v = next
+					continue
+				}
+			}
+			break
+		}
+		notes = tail
+		want := []string{"?arg#0 if (arg#0!=nil) is true", "?arg#1 if (arg#1!=nil) is true", "call:big.NewInt(arg#2)", "call:big.NewInt(0)"}
+		listOK = len(tail) == len(want)
+		for i := range want {
+			if i < len(tail) && tail[i] != want[i] {
+				listOK = false
+			}
+		}
+	}
+	R.decide(rule, key+":list", "the hashed list is [a if non-nil, b if non-nil, index, counter starting at 0]", listOK, strings.Join(notes, " ; "), P.Pos(hc.Pos()))
+	// loop: k phi(0, k+256), condition k < bitlen
+	l := innermostLoopOf(hc.Block())
+	okLoop, okShift, okAdd, okCounter := false, false, false, false
+	if l != nil {
+		for _, ins := range l.Header.Instrs {
+			if phi, ok := ins.(*ssa.Phi); ok && len(phi.Edges) == 2 {
+				start, step := false, false
+				for _, e := range phi.Edges {
+					if c, ok := constInt(e); ok && c == 0 {
+						start = true
+					}
+					if b, ok := e.(*ssa.BinOp); ok && b.Op.String() == "+" && b.X == ssa.Value(phi) {
+						if c, ok := constInt(b.Y); ok && c == 256 {
+							step = true
+						}
+					}
+				}
+				if start && step {
+					// condition
+					for _, j := range l.Header.Instrs {
+						if b, ok := j.(*ssa.BinOp); ok && b.Op.String() == "<" && b.X == ssa.Value(phi) && desc(b.Y) == "arg#3" {
+							okLoop = true
+						}
+					}
+					// shift by k
+					allInstrs(fn, func(i ssa.Instruction) {
+						c, ok := i.(*ssa.Call)
+						if !ok || !l.Body[c.Block()] {
+							return
+						}
+						if bigMethod(c) == "Lsh" && siteOf(c.Call.Args[0]) == ssa.Value(hc) && siteOf(c.Call.Args[1]) == ssa.Value(hc) && stripConv(c.Call.Args[2]) == ssa.Value(phi) {
+							okShift = true
+						}
+					})
+				}
+			}
+		}
+		allInstrs(fn, func(i ssa.Instruction) {
+			c, ok := i.(*ssa.Call)
+			if !ok || !l.Body[c.Block()] || bigMethod(c) != "Add" {
+				return
+			}
+			// res.Add(res, cur)
+			if siteOf(c.Call.Args[0]) == siteOf(c.Call.Args[1]) && siteOf(c.Call.Args[2]) == ssa.Value(hc) {
+				for _, r := range returnsOf(fn) {
+					if siteOf(r.Results[0]) == siteOf(c.Call.Args[0]) {
+						okAdd = true
+					}
+				}
+			}
+			// counter: tmp[countIdx].Add(tmp[countIdx], 1)
+			d0, d1 := desc(c.Call.Args[0]), desc(c.Call.Args[1])
+			if d0 == d1 && strings.Contains(d0, "[len(") {
+				if k, ok := P.bigEval(fn).At[c]; ok && len(k) == 3 && k[2].equal(tconst(1)) {
+					okCounter = true
+				}
+			}
+		})
+	}
+	R.decide(rule, key+":loop", "k starts at 0, the loop runs while k < bitlen and advances k by 256", okLoop, "", P.Pos(fn.Pos()))
+	R.decide(rule, key+":shift", "each limb is shifted left by k", okShift, "", P.Pos(fn.Pos()))
+	R.decide(rule, key+":sum", "the limbs are added into the returned result", okAdd, "", P.Pos(fn.Pos()))
+	R.decide(rule, key+":counter", "the counter (last list element) is incremented by exactly 1 per limb", okCounter, "", P.Pos(fn.Pos()))
 }
